@@ -400,6 +400,8 @@ class World:
                 world.trace.append(("brk", "cancel", None, r, self._state.value))
                 return r
 
+        from .statebfs import _decoy_breaker
+        _decoy_breaker()
         kw = dict(
             failure_threshold=br.get("threshold", 2),
             window_s=br.get("window", 8) * TAU,
@@ -1055,11 +1057,13 @@ class _FakeFuture:
         self.t_before = t_before
         self.n_before = n_before
         self.duration = world.clock.now - t_before
+        self.timed_out = False
 
     def result(self, timeout=None):
         w = self.world
         if timeout is not None and self.duration > timeout:
             # the attempt is still "running" in its thread: the caller gives up after `timeout`
+            self.timed_out = True
             w.clock.now = self.t_before + timeout
             for i in range(len(w.trace) - 1, self.n_before - 1, -1):
                 r = w.trace[i]
@@ -1076,7 +1080,7 @@ class _FakeFuture:
         return False
 
     def done(self):
-        return True
+        return not self.timed_out
 
 
 class _FakeExecutor:
